@@ -58,6 +58,9 @@ Definition RPCCodeInternalError : Z := (-32603)%Z.
 Definition EStart := 2%nat.       (* Start failed: the process does not come up *)
 Definition ESign := 3%nat.        (* wallet refused / failed to sign *)
 
+(* stands for every message text the proxy produces itself (i18n messages, wrapped Go errors) *)
+Definition proxy_text : bytes := bs "<text produced by the proxy>".
+
 (* Go pointer dereference *)
 Definition deref {A} (p : option A) : res A := match p with Some a => Ok a | None => Panic end.
 (* Go slice index *)
@@ -85,9 +88,10 @@ Section Proxy.
 
   (* ================= pkg/rpcbackend/backend.go ================= *)
 
-  (* RPCErrorResponse(err, id, code): the message text is the proxy's own *)
+  (* RPCErrorResponse(err, id, code): the message text is the proxy's own — a marker in the model,
+     never compared with the implementation's text *)
   Definition RPCErrorResponse (id : option json) (code : Z) : rpc_response :=
-    mkResp (bs "2.0") id None (Some (mkErr code [] false None)) [] None.
+    mkResp (bs "2.0") id None (Some (mkErr code proxy_text false None)) [] None.
 
   Definition is_success (status : N) : bool := (199 <? status)%N && (status <? 300)%N.   (* resty IsSuccess *)
   Definition is_error (status : N) : bool := (399 <? status)%N.                          (* resty IsError *)
